@@ -516,10 +516,17 @@ DemandType TransportationSuccessiveShortestPath::sendSource(
   assert(quantity > 0LL);
   DemandType maxSent = quantity;
   int snk1 = sink;
+  int movedSrc = src;
   while (sinkParent_[snk1] != -1) {
     int snk2 = sinkParent_[snk1];
-    maxSent = std::min(maxSent, sentQuantity(snk1, snk2));
+    int nextSrc = sentSource(snk1, snk2);
+    // A source that is moved in and out of a sink is not limited by its
+    // current allocation there, which may be tiny compared to the quantity
+    if (nextSrc != movedSrc) {
+      maxSent = std::min(maxSent, pb_.allocation(snk1, nextSrc));
+    }
     assert(maxSent > 0LL);
+    movedSrc = nextSrc;
     snk1 = snk2;
   }
   maxSent = std::min(maxSent, remainingCapa_[snk1]);
@@ -533,9 +540,12 @@ DemandType TransportationSuccessiveShortestPath::sendSource(
     assert(remainingCapa_[snk1] == 0LL);
     int snk2 = sinkParent_[snk1];
     CostType oldCost = movingCost(snk1, snk2);
+    // Same source as when computing the quantity: pick it before the queues
+    // are updated with the incoming source
+    int nextSrc = sentSource(snk1, snk2);
     updateDestQueues(snk1, sentSrc);
     pb_.allocations_[snk1][sentSrc] += maxSent;
-    sentSrc = sentSource(snk1, snk2);
+    sentSrc = nextSrc;
     pb_.allocations_[snk1][sentSrc] -= maxSent;
     updateSinkQueues(snk1, sentSrc);
     CostType newCost = movingCost(snk1, snk2);
